@@ -1,4 +1,4 @@
-import BalmProofs.Props.C04
+import BalmProofs.PlainInv
 /-!
 # The diagram of a plain history never has more than 3^n nodes (C13)
 
